@@ -67,9 +67,17 @@ func genC14(r *Rng, tier string) *Scenario {
 		nrep = 8
 	}
 	switch c := r.Intn(100); {
+	case c < 2:
+		// the whole built-in function table; the history replica has called every function before
+		sc.Family = "builtins"
+		sc.Parts = []string{BuiltinSweepSrc}
+		if r.Chance(50) {
+			sc.Parts = append(sc.Parts, "{{ "+(&Gen{R: r, Prefix: "BS", AllFuncs: true}).Expr("str", 3)+" }}")
+		}
+		sc.Ops = []Op{{Kind: "evalstr", Src: strings.Join(sc.Parts, ""), Data: BuiltinSweepData()}}
 	case c < 45:
 		sc.Family = "string"
-		g := &Gen{R: r, Prefix: "ST", ObjBias: 60, FailBias: 0, ObjFail: true}
+		g := &Gen{R: r, Prefix: "ST", ObjBias: 60, FailBias: 0, ObjFail: true, AllFuncs: r.Chance(50)}
 		if r.Chance(40) {
 			g.FailBias = 45
 		}
@@ -114,7 +122,7 @@ func genC14(r *Rng, tier string) *Scenario {
 	case c < 55:
 		// data maps with several unsupported values / the reserved name
 		sc.Family = "baddata"
-		g := &Gen{R: r, Prefix: "BD"}
+		g := &Gen{R: r, Prefix: "BD", AllFuncs: true}
 		data := g.GenData()
 		bad := []struct {
 			k string
